@@ -30,6 +30,8 @@ def nontrivial(lkeys, rkeys):
 def run_unit(unit):
     if unit[0] == "hist":
         return js.run_hist_unit(unit, (METHOD,))
+    if unit[0] == "big":
+        return js.run_big_unit(unit, (METHOD,))
     kind, nkeys, config, forms, nl, maxr = unit
     agg = Agg()
     h = hashlib.sha256()
@@ -96,6 +98,7 @@ def check(ctx):
     units = js.plan_units(ctx.thorough)
     units += [("hist", k, f) for k in ("int", "str") for f in ("name", "column")]
     units += [("hist", "int", f, "recycle") for f in ("name", "column")]
+    units += [("big", p) for p in range(4)]
     agg = hashseeds.run(ctx, "props.c09", units)
     agg.notes["bound"] = "see joinspace.plan_units: quick rows<=3 (1 key) / <=2 (2 keys); thorough rows<=4 / <=3 / <=2 (3 keys)"
     agg.notes["exhaustive"] = True
